@@ -56,5 +56,43 @@ def Repaints (content : Id → Int → Int → Cell) (beh : Id → Rect → List
   ∀ (w : Id) (rect : Rect) (rb : RB) (L C : Int), rb.writable L C = true → rect.memb (L - rb.xl) (C - rb.xc) = true →
     (rb.run (beh w rect)).cells L C = some (.plain (content w (L - rb.xl) (C - rb.xc)))
 
+/-! ### pen inheritance
+
+  `_do_expose` merges the window pens down the tree: `tickit_renderbuffer_save` in the parent's loop pushes the parent's
+  merged pen, `if(win->pen) tickit_renderbuffer_setpen(rb, win->pen)` lays the window's pen over the pen saved in that
+  frame.  A handler may rely on the pen it finds (e.g. only erase, expecting the background of an ancestor's pen). -/
+
+/-- `tickit_renderbuffer_setpen(rb, p)` as a function of the pen `base` saved in the top frame (`RB.setpen`); a window
+    without a pen (`none`: `win->pen == NULL`) leaves the buffer's pen alone. -/
+def penOver (p : Option Pen) (base : Pen) : Pen :=
+  match p with
+  | some p => Pen.copy (Pen.copy {} p true) base false
+  | none => base
+
+/-- The pen the render buffer carries when `_do_expose` reaches window `w` during a flush: the window's pen over the
+    merged pen of its parent, the root's over the fresh buffer's empty pen (`pens[w]`: `win->pen`, `none` = `NULL`;
+    `fuel` bounds the walk up the parent chain). -/
+def mergedPen (t : Tree) (pens : Array (Option Pen)) : Nat → Id → Pen
+  | 0, _ => {}
+  | fuel + 1, w =>
+    penOver (pens[w]?).join
+      (match t.wins[w]? with
+       | some ww => (match ww.parent with
+         | some p => mergedPen t pens fuel p
+         | none => {})
+       | none => {})
+
+/-- The pen-aware proviso of C01: as `Repaints`, but window `w`'s program is only asked to repaint when the buffer
+    carries the pen `_do_expose` hands it in tree `t` — the handler may rely on the inherited pen. -/
+def RepaintsP (t : Tree) (pens : Array (Option Pen)) (content : Id → Int → Int → Cell) (beh : Id → Rect → List DrawOp) : Prop :=
+  ∀ (w : Id) (rect : Rect) (rb : RB) (L C : Int), rb.pen = mergedPen t pens (t.wins.size + 1) w →
+    rb.writable L C = true → rect.memb (L - rb.xl) (C - rb.xc) = true →
+    (rb.run (beh w rect)).cells L C = some (.plain (content w (L - rb.xl) (C - rb.xc)))
+
+/-- A handler that repaints whatever pen it finds does so in particular with the inherited one. -/
+theorem repaintsP_of_repaints {content : Id → Int → Int → Cell} {beh : Id → Rect → List DrawOp} (h : Repaints content beh)
+    (t : Tree) (pens : Array (Option Pen)) : RepaintsP t pens content beh :=
+  fun w rect rb L C _ hw hm => h w rect rb L C hw hm
+
 end WinSpec
 end Tickit
